@@ -6,11 +6,11 @@
 package main
 
 import (
-	"io"
 	"bytes"
 	"crypto/sha256"
 	"encoding/hex"
 	"fmt"
+	"io"
 	"math/rand"
 	"os"
 	"path/filepath"
@@ -51,13 +51,13 @@ type world struct {
 	dir   string
 	c     *cache.Cache
 	ids   [nIDs]cache.ActionID
-	cur   [nIDs][]byte           // latest successfully stored payload (nil = never)
-	has   [nIDs]bool             // a Put succeeded at some time and index not known-absent
-	idxOK [nIDs]bool             // index entry untouched since the last successful Put
+	cur   [nIDs][]byte            // latest successfully stored payload (nil = never)
+	has   [nIDs]bool              // a Put succeeded at some time and index not known-absent
+	idxOK [nIDs]bool              // index entry untouched since the last successful Put
 	hist  [nIDs]map[[32]byte]bool // hashes of every payload ever Put under this id
-	data  map[[32]byte]bool      // output file intact?
-	obstr map[string]bool        // paths currently replaced by a directory
-	files map[string]bool        // every path we may have created (for cleanup)
+	data  map[[32]byte]bool       // output file intact?
+	obstr map[string]bool         // paths currently replaced by a directory
+	files map[string]bool         // every path we may have created (for cleanup)
 	ops   []string
 	hidx  int
 	rng   *rand.Rand
